@@ -28,21 +28,24 @@ import (
 )
 
 type Driver struct {
-	W           *tf.Writer
-	Traces      int
-	Events      int
-	Interesting int
-	Proofs      int
-	Due         int
-	Rejected    int
-	Blocks      int
-	MaxHeight   int64
-	MaxResults  int
-	PathDepths  map[int]int
-	ValSizes    map[int]int
-	Rounds      map[int]int
-	Stores      []string
-	seen        map[string]bool
+	W                 *tf.Writer
+	Traces            int
+	Events            int
+	Interesting       int
+	Proofs            int
+	Due               int
+	SetChanges        int
+	ProofsAtSetChange int
+	ProofsAllDistinct int
+	Rejected          int
+	Blocks            int
+	MaxHeight         int64
+	MaxResults        int
+	PathDepths        map[int]int
+	ValSizes          map[int]int
+	Rounds            map[int]int
+	Stores            []string
+	seen              map[string]bool
 }
 
 func NewDriver(w *tf.Writer) *Driver {
@@ -54,7 +57,7 @@ func (d *Driver) Close() {}
 func (d *Driver) Finish() map[string]interface{} {
 	return map[string]interface{}{
 		"traces": d.Traces, "events": d.Events, "interesting": d.Interesting,
-		"proofs_due": d.Due, "proofs_produced_by_service": d.Proofs, "proof_requests_refused_by_service": d.Rejected, "blocks": d.Blocks,
+		"validator_set_changes": d.SetChanges, "proofs_at_headers_with_next_validators_hash_differing": d.ProofsAtSetChange, "proofs_at_headers_with_all_hash_fields_pairwise_distinct": d.ProofsAllDistinct, "proofs_due": d.Due, "proofs_produced_by_service": d.Proofs, "proof_requests_refused_by_service": d.Rejected, "blocks": d.Blocks,
 		"max_height": d.MaxHeight, "max_results_in_store": d.MaxResults, "iavl_path_depths": d.PathDepths,
 		"validator_set_sizes": d.ValSizes, "commit_rounds": d.Rounds, "mounted_stores": d.Stores,
 	}
@@ -132,6 +135,7 @@ func (d *Driver) RunScript(sc tf.Script) {
 			}
 		}
 	}
+	d.SetChanges += r.n.SetChanges
 	if interesting {
 		h := sc.Hash()
 		if !d.seen[h] {
@@ -178,8 +182,24 @@ func (r *run) block(st tf.M) {
 	bs := BlockSpec{
 		DSec: int64(tf.Int(st, "dt", 3)), Nano: int64(tf.Int(st, "ns", 0)), Round: int32(tf.Int(st, "round", 0)),
 		Proposer: tf.Int(st, "prop", 0) % nv, VerBlock: uint64(tf.Int(st, "vb", 11)), VerApp: uint64(tf.Int(st, "va", 0)),
-		Evidence: tf.Bool(st, "evid", false), Junk: tf.Int(st, "junk", 0),
+		Evidence: tf.Bool(st, "evid", false), Junk: tf.Int(st, "junk", 0), ConsVar: tf.Int(st, "cp", 0),
 	}
+	// validator set of the next height: power per validator (0 = leaves the set); at least one member
+	if np := tf.Ints(st, "nextvals"); len(np) > 0 {
+		var sum int64
+		for i := 0; i < nv; i++ {
+			p := int64(0)
+			if i < len(np) && np[i] > 0 {
+				p = int64(np[i])
+			}
+			bs.NextPowers = append(bs.NextPowers, p)
+			sum += p
+		}
+		if sum == 0 {
+			bs.NextPowers[0] = 1
+		}
+	}
+	cur := n.Powers[n.C.Height+1] // the set that signs this block
 	for i := 0; i < nv; i++ {
 		bs.Votes = append(bs.Votes, VoteSpec{Flag: 2, DSec: 1})
 	}
@@ -193,16 +213,15 @@ func (r *run) block(st tf.M) {
 	// keep more than 2/3 of the power on the block (a committed block always has that)
 	var tot, on int64
 	for i := 0; i < nv; i++ {
-		p := r.w.Cfg.ValTokens[i]
-		tot += p
+		tot += cur[i]
 		if bs.Votes[i].Flag == 2 {
-			on += p
+			on += cur[i]
 		}
 	}
 	for i := 0; i < nv && on*3 <= tot*2; i++ {
 		if bs.Votes[i].Flag != 2 {
 			bs.Votes[i].Flag = 2
-			on += r.w.Cfg.ValTokens[i]
+			on += cur[i]
 		}
 	}
 	var txs [][]byte
@@ -404,7 +423,20 @@ func (r *run) proofStep(st tf.M) bool {
 		s["blockHash"] = hx(hdr.Hash())
 		s["oracleRoot"] = hx(root)
 		s["round"] = int(commit.Round)
-		for i, v := range n.ValSet.Validators {
+		if !bytes.Equal(hdr.ValidatorsHash, hdr.NextValidatorsHash) {
+			r.d.ProofsAtSetChange++
+		}
+		// vacuity guard for the header stage: are the hash-valued header fields pairwise different here?
+		fields := [][]byte{hdr.LastBlockID.Hash, hdr.LastCommitHash, hdr.DataHash, hdr.ValidatorsHash, hdr.NextValidatorsHash,
+			hdr.ConsensusHash, hdr.AppHash, hdr.LastResultsHash, hdr.EvidenceHash}
+		distinct := map[string]bool{}
+		for _, f := range fields {
+			distinct[string(f)] = true
+		}
+		if len(distinct) == len(fields) {
+			r.d.ProofsAllDistinct++
+		}
+		for i, v := range n.Sets[H].Validators {
 			cs := commit.Signatures[i]
 			m := tf.M{"addr": hx(v.Address), "flag": int(cs.BlockIDFlag), "sb": "", "eth": []int{}}
 			if cs.BlockIDFlag == cmttypes.BlockIDFlagCommit {
@@ -485,7 +517,7 @@ func (r *run) recoverSigner(H int64, sg proof.TMSignature) int {
 		return 0
 	}
 	sig := append(append(append([]byte{}, sg.R...), sg.S...), byte(sg.V-27))
-	for i, v := range n.ValSet.Validators {
+	for i, v := range n.Sets[H].Validators {
 		if commit.Signatures[i].BlockIDFlag != cmttypes.BlockIDFlagCommit {
 			continue
 		}
